@@ -117,14 +117,30 @@ func H_C15() {
 		full, fclosed := drain(fch, size+4)
 		vx.Assert("C15", fclosed, "on success the output channel is closed")
 		vx.Assert("C15", len(hashSet(full)) == len(full) && sameSet(hashSet(full), rng), "without lower bound and amount exactly the causal past of the upper bound is emitted")
+		// Under such an ordering the traversal hands out, among the entries it has reached, the oldest first: on a
+		// fork with a common root the root comes before the later branch. What "newest first" leaves for it is the
+		// order of discovery: every entry is an upper bound or a predecessor (link or skip reference) of an entry
+		// emitted before it - no entry comes before all of its successors in the range.
+		startSet := map[string]bool{}
+		for _, k := range start {
+			startSet[k] = true
+		}
 		for i := range full {
-			if !antichain {
-				break // causally related upper bounds: under such an ordering the older bound comes first; nothing is claimed
+			k := hstr(full[i])
+			reached := startSet[k]
+			for j := 0; j < i && !reached; j++ {
+				for _, nx := range full[j].GetNext() {
+					if nx.String() == k {
+						reached = true
+					}
+				}
+				for _, nx := range full[j].GetRefs() {
+					if nx.String() == k {
+						reached = true
+					}
+				}
 			}
-			past := refPast([]string{hstr(full[i])}, es)
-			for j := 0; j < i; j++ {
-				vx.Assert("C15", !past[hstr(full[j])] || hstr(full[j]) == hstr(full[i]), "no entry is emitted after one of its successors (newest first)")
-			}
+			vx.Assert("C15", reached, "every emitted entry is an upper bound or a predecessor of an entry emitted before it (newest first, ordering against causality)")
 		}
 		desc = full
 		vx.Cover("anti-causal-ordering")
